@@ -11,3 +11,21 @@ Print Assumptions C10_accepted_tags_valid.
 Theorem C10_every_invalid_tag_rejected : ob_invalid_tag_rejected = true.
 Proof. exact invalid_tag_rejected. Qed.
 Print Assumptions C10_every_invalid_tag_rejected.
+
+(* the read-back half: a message validation accepts - with canonical FAIM values and present tags among the
+   50 covered ones - is written, in every layout, and the reader accepts the text back as that very message
+   (corollary of the C01 file-level theorem; the uncovered tags and non-canonical values are decided on the
+   implementation by stream l5-props) *)
+From Wire Require Import Model.Writer Model.Reader Theory.WriterFacts Theory.Segments Theory.FileRoundTripFull.
+
+Theorem C10_accepted_message_is_written_and_read_back : forall m variable nl,
+  wf_msg m -> verify m = Accept -> msg_covered m -> sep_ok nl ->
+  exists t, write_model m variable nl = WOk t /\
+            (length t < max_token -> forall chunks, concat chunks = t -> read_model None (m_opts m) chunks FEOF = ROk m).
+Proof.
+  intros m variable nl Hw Hacc Hcov Hsep.
+  destruct (proj1 (write_succeeds_iff_valid m variable nl Hw formats_total_true) Hacc) as [t Ht].
+  exists t. split; [exact Ht|]. intros Hl chunks Hc.
+  apply (write_then_read_covered m variable nl t Hw Hcov Hsep Ht Hl chunks Hc).
+Qed.
+Print Assumptions C10_accepted_message_is_written_and_read_back.
